@@ -9,7 +9,7 @@ from fractions import Fraction
 from sa.core import AnalysisError, Report, loc, norm_src, fresh_copy
 from sa.consteval import ev, Opaque, NameRef
 from sa.paths import dotted, calls_in, call_name
-from sa.numconst import BITS, PREC, dtype_switch, round_to
+from sa.numconst import BITS, PREC, dtype_switch, round_to, significant_bits
 
 REL = "floating_point_algorithms.py"
 
@@ -575,6 +575,37 @@ def derive_next(bits, c):
     return (not bad, "; ".join(bad) if bad else "")
 
 
+def accepted_significands(bits, P, Q):
+    """The set of integer significands m in [M, 2M), M = 2^(p-1), for which the test fl(fl(P*m) - fl(Q*m)) == m holds, in closed
+    form (the question is scale free for normal x).  With Q = 2^j the product Q*m is exact; with P = Q + 1 the difference of
+    fl(P*m) and Q*m is m plus the rounding error rho of P*m, an integer; m + rho is an integer that is either below 2^p (exact) or an
+    even number >= 2^p > m, so the test holds iff rho = 0, i.e. iff (2^j + 1)*m fits in p bits.  Writing m = 2^v * odd that needs
+    v >= j, so the candidates are the multiples of 2^j in [M, 2M).  Returns (set or None when not derivable, explanation)."""
+    pp = PREC[bits]
+    M = 2 ** (pp - 1)
+    if not (isinstance(P, int) and isinstance(Q, int) and Q > 0):
+        return None, "constants are not positive integers"
+    if P == Q:
+        return set(), "P == Q: the difference P*x - Q*x is 0 for every x"
+    if Q & (Q - 1):
+        return None, "Q is not a power of two"
+    if P - Q != 1:
+        d = P - Q
+        smax = 2 ** max(0, (P * (2 * M - 1)).bit_length() - pp)
+        if d >= 2 and 2 * (d - 1) * M > smax:
+            return set(), f"P - Q = {d}: the difference is about {d}*x, never x"
+        return None, f"P - Q = {d}"
+    j = Q.bit_length() - 1
+    if M >> j > 4096:
+        return {"many"}, f"every significand that is a multiple of 2^{j + 1} passes the test: at least {M >> (j + 1)} values per binade"
+    out = set()
+    for m in range(M if M % Q == 0 else (M // Q + 1) * Q, 2 * M, Q):
+        v = P * m
+        if significant_bits(Fraction(v)) <= pp:
+            out.add(Fraction(m, M))
+    return out, ""
+
+
 def run(repo, tier):
     r = Report("C11", tier, repo, level="other", design_ref="§3/C11")
     r.explanation = (
@@ -585,7 +616,7 @@ def run(repo, tier):
     )
     r.trusted_base = ["Python ast", "IEEE-754 binary16/32/64 precisions"]
     r.assumptions = ["formulas P = 2^(p-1)+1, Q = 2^(p-1) (Graillat, Muller hal-04624238) are the correct ones"]
-    r.rule("R11.1", "P/Q constants equal 2^(p-1)+1 / 2^(p-1) (resp. 2^(p-2)+1 / 2^(p-2)) at every definition site and in the docstrings", floor=12)
+    r.rule("R11.1", "P/Q constants equal 2^(p-1)+1 / 2^(p-1) (resp. 2^(p-2)+1 / 2^(p-2)) at every definition site and in the docstrings; derived per site and format: the set of significands for which fl(P*x - Q*x) == x holds is exactly {1} (resp. {1, 3/2})", floor=21)
     r.rule("R11.2", "next(): for every normal x with a normal neighbour, x / c rounds to the next float away from zero and x * c to the next float towards zero - derived per format for the multiplier that is there, scale free over all significands (end-point conditions in exact rationals); direction of the step", floor=4)
     r.rule("R11.4", "3Sum is an exact decomposition and the rounded compound operations account for every error term: under exact-arithmetic semantics with 2Sum / Dekker contracts, s + e + t == x + y + z and (arm taken when the residual vanishes) + residual == exact result", floor=5)
     r.rule("R11.5", "emulated FMA (a7, a8, a9; both copies): an arm of the result accounts for every word of x*y + z, and an arm selected by a zero test is exact or the high word of an error-free pair under the facts of that test", floor=12)
@@ -593,6 +624,7 @@ def run(repo, tier):
 
     want = {"Q": lambda p: 2 ** (p - 1), "P": lambda p: 2 ** (p - 1) + 1}
     want13 = {"Q": lambda p: 2 ** (p - 2), "P": lambda p: 2 ** (p - 2) + 1}
+    pairs = {}
 
     # ---- site 1: get_is_power_of_two_constants (dtype switch on `largest`); the interface is the order of the returned pair (Q, P)
     f = repo.func(REL, "get_is_power_of_two_constants")
@@ -625,6 +657,7 @@ def run(repo, tier):
                     if not (isinstance(node, ast.Name) and node.id in env):
                         raise AnalysisError(f"get_is_power_of_two_constants: branch `{norm_src(node)}` is not one of the constants")
                     val = ev(env[node.id])
+                    pairs.setdefault(("get_is_power_of_two_constants", bits), {})[rl] = (val, env[node.id])
                     exp = want[rl](PREC[bits])
                     r.ob(
                         "R11.1",
@@ -654,8 +687,24 @@ def run(repo, tier):
         for nm, node in sorted(entries.items()):
             for bits in BITS:
                 val = eval_for_format(node, bits, g, local_env(g, bits))
+                pairs.setdefault((fname, bits), {})[nm] = (val, node)
                 exp = w[nm](PREC[bits])
                 r.ob("R11.1", f"{REL}::{fname} {nm} float{bits}", val == exp, f"`{norm_src(node)}` for float{bits} (p={PREC[bits]}) gives {val}, expected {exp}", loc(REL, node))
+    # ---- derived: which significands does the test accept with the constants that are there?
+    for (site, bits), d in sorted(pairs.items()):
+        if set(d) != {"P", "Q"}:
+            continue
+        (pv, pn), (qv, qn) = d["P"], d["Q"]
+        pv, qv = (int(v) if isinstance(v, float) and v == int(v) else v for v in (pv, qv))
+        three = "three" in site
+        expect = {Fraction(1), Fraction(3, 2)} if three else {Fraction(1)}
+        got, why = accepted_significands(bits, pv, qv)
+        if got is None:
+            continue  # not of the analysed form: the comparison with the formula above is the verdict
+        shown = "{" + ", ".join(f"{float(x)!r}*2^e" if isinstance(x, Fraction) else str(x) for x in sorted(got, key=str)) + "}"
+        r.ob("R11.1", f"{REL}::{site} float{bits}: the test accepts exactly the significands {sorted(float(x) for x in expect)} (derived for every normal x)", got == expect,
+             f"with P = {pv}, Q = {qv} the test fl(P*x - Q*x) == x holds for x in {shown} (times a power of two), not only for {'1 and 3/2' if three else '1'}" + (f": {why}" if why else ""),
+             loc(REL, pn), sample=dict(rule="R11.1", site=site, bits=bits, P=str(pv), Q=str(qv), accepted=shown))
     # ---- docstring formulas
     for fname, w in (("is_power_of_two", want), ("is_one_or_three_times_power_of_two", want13)):
         g = repo.func(REL, fname)
